@@ -123,7 +123,11 @@ func (x *XML2sdcpbConfigAdapter) transformContainer(ctx context.Context, e *etre
 		if cPElem[len(cPElem)-1].Key == nil {
 			cPElem[len(cPElem)-1].Key = map[string]string{}
 		}
-		cPElem[len(cPElem)-1].Key[ls.Name] = e.FindElement("./" + ls.Name).Text()
+		keyElem := e.FindElement("./" + ls.Name)
+		if keyElem == nil {
+			return fmt.Errorf("list entry %s carries no %s key element", e.Tag, ls.Name)
+		}
+		cPElem[len(cPElem)-1].Key[ls.Name] = keyElem.Text()
 	}
 
 	ntc := NewTransformationContext(cPElem)
